@@ -365,7 +365,9 @@ pub fn display_hex<A: HC>(s: &SeqSlice<A>) -> String {
 }
 
 pub fn show<A: HC>(s: &SeqSlice<A>) -> String {
-    format!("{} {} {}", s.len(), content(s), display_hex(s))
+    // implementation-side oracle on every shown value: `is_empty()` is `len() == 0`
+    let flag = if s.is_empty() != (s.len() == 0) { " PROPFAIL:is_empty-disagrees-with-len" } else { "" };
+    format!("{} {} {}{flag}", s.len(), content(s), display_hex(s))
 }
 
 /// records every `Hasher` method call
